@@ -105,6 +105,8 @@ def selftest_stage(run: Run, pid: str) -> None:
             for prop, rc, out in results:
                 want_rc = 1 if m["expect"] == "fire" else 0
                 ok = rc == want_rc and (m["expect"] != "fire" or not m.get("mention") or m["mention"] in out)
+                if m["expect"] == "not-fire":
+                    ok = rc in (0, 2)       # an independently written refactoring this check could not decide: it must never be reported
                 killers += m["expect"] == "fire"
                 twins += m["expect"] != "fire"
                 if not ok and not same_tree:
